@@ -17,8 +17,8 @@ Definition Bound (f : nat) : Prop :=
   BD 5 (fun f b ts => rd_chain f b ts) f /\
   BD 2 (fun f (_ : unit) ts => rd_atom f ts) f /\
   BD 2 (fun f a ts => rd_trailers f a ts) f /\
-  BD 5 (fun f (_ : unit) ts => rd_star f ts) f /\
-  BD 6 (fun f c ts => rd_elts f c ts) f /\
+  BD 5 (fun f sl ts => rd_star f sl ts) f /\
+  BD 6 (fun f (a : bool * closer) ts => rd_elts f (fst a) (snd a) ts) f /\
   BD 5 (fun f (_ : unit) ts => rd_dict f ts) f /\
   BD 5 (fun f st ts => rd_args f st ts) f.
 
@@ -36,8 +36,8 @@ Ltac bound_go Brd Bpre Bcl Bch Bat Btr Bst Bel Bdi Bar :=
            | rd_chain ?f ?b ?t => let E := fresh "E" in destruct x as [[? ?]|] eqn:E; [use_ih (Bch b t) E|discriminate]
            | rd_atom ?f ?t => let E := fresh "E" in destruct x as [[? ?]|] eqn:E; [use_ih (Bat tt t) E|discriminate]
            | rd_trailers ?f ?a ?t => let E := fresh "E" in destruct x as [[? ?]|] eqn:E; [use_ih (Btr a t) E|discriminate]
-           | rd_star ?f ?t => let E := fresh "E" in destruct x as [[? ?]|] eqn:E; [use_ih (Bst tt t) E|discriminate]
-           | rd_elts ?f ?c ?t => let E := fresh "E" in destruct x as [[? ?]|] eqn:E; [use_ih (Bel c t) E|discriminate]
+           | rd_star ?f ?b ?t => let E := fresh "E" in destruct x as [[? ?]|] eqn:E; [use_ih (Bst b t) E|discriminate]
+           | rd_elts ?f ?b ?c ?t => let E := fresh "E" in destruct x as [[? ?]|] eqn:E; [use_ih (Bel (b, c) t) E|discriminate]
            | rd_dict ?f ?t => let E := fresh "E" in destruct x as [[? ?]|] eqn:E; [use_ih (Bdi tt t) E|discriminate]
            | rd_args ?f ?s ?t => let E := fresh "E" in destruct x as [[[? ?] ?]|] eqn:E; [use_ih (Bar s t) E|discriminate]
            | _ => destruct x eqn:?; try discriminate
@@ -52,8 +52,8 @@ Ltac last_call Brd Bpre Bcl Bch Bat Btr Bst Bel Bdi Bar :=
   | H : rd_chain ?f ?b ?t = Some _ |- _ => use_ih (Bch b t) H
   | H : rd_atom ?f ?t = Some _ |- _ => use_ih (Bat tt t) H
   | H : rd_trailers ?f ?a ?t = Some _ |- _ => use_ih (Btr a t) H
-  | H : rd_star ?f ?t = Some _ |- _ => use_ih (Bst tt t) H
-  | H : rd_elts ?f ?c ?t = Some _ |- _ => use_ih (Bel c t) H
+  | H : rd_star ?f ?b ?t = Some _ |- _ => use_ih (Bst b t) H
+  | H : rd_elts ?f ?b ?c ?t = Some _ |- _ => use_ih (Bel (b, c) t) H
   | H : rd_dict ?f ?t = Some _ |- _ => use_ih (Bdi tt t) H
   | H : rd_args ?f ?s ?t = Some _ |- _ => use_ih (Bar s t) H
   | H : Some _ = Some _ |- _ => inversion H; subst; clear H
@@ -83,8 +83,8 @@ Proof.
   - intros b ts r rest H. cbn in H. bound_go Brd Bpre Bcl Bch Bat Btr Bst Bel Bdi Bar; last_call Brd Bpre Bcl Bch Bat Btr Bst Bel Bdi Bar; finish_bound.
   - intros [] ts r rest H. cbn in H. bound_go Brd Bpre Bcl Bch Bat Btr Bst Bel Bdi Bar; last_call Brd Bpre Bcl Bch Bat Btr Bst Bel Bdi Bar; finish_bound.
   - intros a ts r rest H. cbn in H. bound_go Brd Bpre Bcl Bch Bat Btr Bst Bel Bdi Bar; last_call Brd Bpre Bcl Bch Bat Btr Bst Bel Bdi Bar; finish_bound.
-  - intros [] ts r rest H. cbn in H. bound_go Brd Bpre Bcl Bch Bat Btr Bst Bel Bdi Bar; last_call Brd Bpre Bcl Bch Bat Btr Bst Bel Bdi Bar; finish_bound.
-  - intros c ts r rest H. cbn in H. bound_go Brd Bpre Bcl Bch Bat Btr Bst Bel Bdi Bar; last_call Brd Bpre Bcl Bch Bat Btr Bst Bel Bdi Bar; finish_bound.
+  - intros sl ts r rest H. cbn in H. bound_go Brd Bpre Bcl Bch Bat Btr Bst Bel Bdi Bar; last_call Brd Bpre Bcl Bch Bat Btr Bst Bel Bdi Bar; finish_bound.
+  - intros [sl c] ts r rest H. cbn in H. bound_go Brd Bpre Bcl Bch Bat Btr Bst Bel Bdi Bar; last_call Brd Bpre Bcl Bch Bat Btr Bst Bel Bdi Bar; finish_bound.
   - intros [] ts r rest H. cbn in H. bound_go Brd Bpre Bcl Bch Bat Btr Bst Bel Bdi Bar; last_call Brd Bpre Bcl Bch Bat Btr Bst Bel Bdi Bar; finish_bound.
   - intros st ts r rest H. cbn in H. bound_go Brd Bpre Bcl Bch Bat Btr Bst Bel Bdi Bar; last_call Brd Bpre Bcl Bch Bat Btr Bst Bel Bdi Bar; finish_bound.
 Qed.
